@@ -179,3 +179,145 @@ theorem peg_lengthen (P : Program) (pre : List Nat) (w : Nat) (post : List Nat)
   exact peg_reindex P _ _ _ _ _ _ ign hst hP
 
 end Sourcer
+
+/-! ### the hypotheses are satisfiable: `ignore / +/` -/
+
+namespace Sourcer
+
+/-- a matcher for `/ +/`: the end of the run of blanks that starts at `p`, if there is one -/
+def blanksEnd (inp : List Nat) (p : Nat) : Option Nat :=
+  let run := ((inp.drop p).takeWhile (· == 32)).length
+  if run = 0 then none else some (p + run)
+
+/-- length of the run of blanks from `p` -/
+def blankRun (inp : List Nat) (p : Nat) : Nat := ((inp.drop p).takeWhile (· == 32)).length
+
+theorem blankRun_zero_of_not (inp : List Nat) (p : Nat) (h : inp[p]? ≠ some 32) : blankRun inp p = 0 := by
+  unfold blankRun
+  cases hd : inp.drop p with
+  | nil => simp
+  | cons c cs =>
+    have hc : inp[p]? = some c := by
+      have := congrArg (fun l => l[0]?) hd
+      simpa [List.getElem?_drop] using this
+    have : c ≠ 32 := fun e => h (by rw [hc, e])
+    have hb : (c == 32) = false := by simp [this]
+    simp [List.takeWhile, hb]
+
+theorem blankRun_succ_of (inp : List Nat) (p : Nat) (h : inp[p]? = some 32) : blankRun inp p = blankRun inp (p + 1) + 1 := by
+  unfold blankRun
+  cases hd : inp.drop p with
+  | nil =>
+    have : inp[p]? = none := by
+      have := congrArg (fun l => l[0]?) hd
+      simpa [List.getElem?_drop] using this
+    rw [this] at h
+    exact absurd h (by simp)
+  | cons c cs =>
+    have hc : inp[p]? = some c := by
+      have := congrArg (fun l => l[0]?) hd
+      simpa [List.getElem?_drop] using this
+    have hc32 : c = 32 := by rw [hc] at h; exact Option.some.inj h
+    have hcs : inp.drop (p + 1) = cs := by
+      have : inp.drop (p + 1) = (inp.drop p).drop 1 := by rw [List.drop_drop]
+      rw [this, hd]; rfl
+    rw [hcs]
+    have hb : (c == 32) = true := by simp [hc32]
+    simp [List.takeWhile, hb]
+
+/-- the run of blanks from a position behind the doubled blank is the same run, one further on -/
+theorem blankRun_dbl_gt (pre post : List Nat) : ∀ (n q : Nat), pre.length < q → blankRun (one pre 32 post) q = n →
+    blankRun (dbl pre 32 post) (q + 1) = n := by
+  intro n
+  induction n with
+  | zero =>
+    intro q hq h
+    by_cases hb : (one pre 32 post)[q]? = some 32
+    · rw [blankRun_succ_of _ _ hb] at h; omega
+    · apply blankRun_zero_of_not
+      have := dbl_get pre 32 post q
+      rw [ins_gt hq] at this
+      rw [this]; exact hb
+  | succ m ih =>
+    intro q hq h
+    by_cases hb : (one pre 32 post)[q]? = some 32
+    · rw [blankRun_succ_of _ _ hb] at h
+      have hb' : (dbl pre 32 post)[q + 1]? = some 32 := by
+        have := dbl_get pre 32 post q
+        rw [ins_gt hq] at this
+        rw [this]; exact hb
+      rw [blankRun_succ_of _ _ hb', ih (q + 1) (by omega) (by omega)]
+    · rw [blankRun_zero_of_not _ _ hb] at h; omega
+
+/-- from a position at or before the doubled blank: the run either stops before it (unchanged) or
+    runs through it (one longer) -/
+theorem blankRun_dbl_le (pre post : List Nat) : ∀ (d q : Nat), q + d = pre.length →
+    (q + blankRun (one pre 32 post) q ≤ pre.length → blankRun (dbl pre 32 post) q = blankRun (one pre 32 post) q) ∧
+    (pre.length < q + blankRun (one pre 32 post) q → blankRun (dbl pre 32 post) q = blankRun (one pre 32 post) q + 1) := by
+  intro d
+  induction d with
+  | zero =>
+    intro q hq
+    have hq' : q = pre.length := by omega
+    subst hq'
+    have h1 : (one pre 32 post)[pre.length]? = some 32 := one_at pre 32 post
+    have h2 : (dbl pre 32 post)[pre.length]? = some 32 := dbl_at pre 32 post
+    rw [blankRun_succ_of _ _ h1]
+    refine ⟨fun h => by omega, fun _ => ?_⟩
+    rw [blankRun_succ_of _ _ h2]
+    -- behind the doubled blank: dbl from pre.length + 1 reads the old blank and then the old text
+    have h3 : (dbl pre 32 post)[pre.length + 1]? = some 32 := by
+      unfold dbl
+      rw [List.getElem?_append_right (by omega)]
+      have : pre.length + 1 - pre.length = 1 := by omega
+      rw [this]; rfl
+    rw [blankRun_succ_of _ _ h3]
+    have := blankRun_dbl_gt pre post (blankRun (one pre 32 post) (pre.length + 1)) (pre.length + 1) (by omega) rfl
+    rw [this]
+  | succ e ih =>
+    intro q hq
+    have hlt : q < pre.length := by omega
+    have hget : (dbl pre 32 post)[q]? = (one pre 32 post)[q]? := by
+      have := dbl_get pre 32 post q
+      rw [ins_le (by omega)] at this
+      exact this
+    by_cases hb : (one pre 32 post)[q]? = some 32
+    · have hb' : (dbl pre 32 post)[q]? = some 32 := by rw [hget]; exact hb
+      rw [blankRun_succ_of _ _ hb, blankRun_succ_of _ _ hb']
+      obtain ⟨i1, i2⟩ := ih (q + 1) (by omega)
+      exact ⟨fun h => by rw [i1 (by omega)], fun h => by rw [i2 (by omega)]⟩
+    · have hb' : (dbl pre 32 post)[q]? ≠ some 32 := by rw [hget]; exact hb
+      rw [blankRun_zero_of_not _ _ hb, blankRun_zero_of_not _ _ hb']
+      exact ⟨fun _ => rfl, fun h => by omega⟩
+
+/-- `/ +/` ends at corresponding positions on an input and on the input with one blank doubled -/
+theorem blanksEnd_dbl (pre post : List Nat) (q : Nat) :
+    blanksEnd (dbl pre 32 post) (ins pre.length q) = (blanksEnd (one pre 32 post) q).map (ins pre.length) := by
+  unfold blanksEnd
+  show (if blankRun (dbl pre 32 post) (ins pre.length q) = 0 then none
+        else some (ins pre.length q + blankRun (dbl pre 32 post) (ins pre.length q)))
+      = (if blankRun (one pre 32 post) q = 0 then none else some (q + blankRun (one pre 32 post) q)).map (ins pre.length)
+  by_cases hq : pre.length < q
+  · rw [ins_gt hq, blankRun_dbl_gt pre post _ q hq rfl]
+    by_cases h0 : blankRun (one pre 32 post) q = 0
+    · simp [h0]
+    · simp only [h0, if_false, Option.map_some]
+      rw [ins_gt (by omega)]
+      congr 1
+      omega
+  · have hle : q ≤ pre.length := by omega
+    rw [ins_le hle]
+    obtain ⟨i1, i2⟩ := blankRun_dbl_le pre post (pre.length - q) q (by omega)
+    by_cases hthru : pre.length < q + blankRun (one pre 32 post) q
+    · rw [i2 hthru]
+      have h0 : blankRun (one pre 32 post) q ≠ 0 := by omega
+      simp only [h0, if_false, Option.map_some, Nat.add_eq_zero_iff, and_false]
+      rw [ins_gt hthru]
+      congr 1
+    · rw [i1 (by omega)]
+      by_cases h0 : blankRun (one pre 32 post) q = 0
+      · simp [h0]
+      · simp only [h0, if_false, Option.map_some]
+        rw [ins_le (by omega)]
+
+end Sourcer
